@@ -249,6 +249,14 @@ def observe_column(col):
         masks = [0] * len(vals)
     else:
         masks = [int(x) for x in np.asarray(m.array).tolist()]
+    if any(masks):
+        # masked_value replaces the '.'/'?' substitution for masked elements and nothing else. (A one-character
+        # value is used: with a narrow string dtype numpy truncates longer replacements, e.g. 'MV' -> 'M' in a U1
+        # column; the statement speaks of the '.'/'?' mask states only, so that is not claimed.)
+        alt = [str(x) for x in col.as_array(str, masked_value="~").tolist()]
+        exp_alt = ["~" if m_ else v for v, m_ in zip(vals, masks)]
+        if alt != exp_alt:
+            raise Violation("view:as_array-masked_value", {"got": alt[:8], "expected": exp_alt[:8]})
     if len(vals) == 1:
         # the scalar view of a single-row column must agree with the array view
         item = col.as_item()
